@@ -207,16 +207,23 @@ def classify(exc):
         return "harness", str(exc)
     if isinstance(exc, (he.FailedHealthCheck, he.Unsatisfiable, he.InvalidArgument)):
         return "harness", "%s: %s" % (type(exc).__name__, exc)
+    # Walk to the innermost frame that belongs either to the code under test or to this
+    # machinery.  An exception that surfaces from acnportal (or from a library it called) is a
+    # violation; one raised by our own code - even inside a callback that acnportal invoked, such
+    # as an observing scheduler - is a harness error.
     tb = exc.__traceback__
-    inner = None
+    inner, inner_is_repo = None, False
+    mine = os.path.join(VERIF, "acnverif")
     while tb is not None:
         fn = os.path.abspath(tb.tb_frame.f_code.co_filename)
         if fn.startswith(os.path.join(REPO, "acnportal")):
-            inner = "%s:%s" % (os.path.relpath(fn, REPO), tb.tb_frame.f_code.co_name)
+            inner, inner_is_repo = "%s:%s" % (os.path.relpath(fn, REPO), tb.tb_frame.f_code.co_name), True
+        elif fn.startswith(mine):
+            inner, inner_is_repo = "%s:%s" % (os.path.relpath(fn, VERIF), tb.tb_frame.f_code.co_name), False
         tb = tb.tb_next
-    if inner is not None:
+    if inner is not None and inner_is_repo:
         return "violation", "exception:%s@%s" % (type(exc).__name__, inner)
-    return "harness", "%s: %s" % (type(exc).__name__, exc)
+    return "harness", "%s: %s (raised in %s)" % (type(exc).__name__, exc, inner)
 
 
 def _failure_record(name, spec, exc):
